@@ -9,7 +9,7 @@ from xmc.evidence import Violation
 from checks.c10 import decorate, full, inc, _fd
 
 PROP = "C11"
-DELIMS = [" ", ",", "\t", ";", "|", "::"]
+DELIMS = [" ", ",", "\t", ";", "|", "::", "--", "ab", " - "]  # multi-character delimiters are substrings, not character sets
 DELIMS_MATRIX = [" ", ",", "\t", ";", "|"]  # numpy.loadtxt accepts single-character delimiters only
 
 _DIR = None
@@ -288,6 +288,10 @@ def family(tier):
             m = len(s["edges"])
             items.append(("H", F.relabel(s, node_map=nm, edge_ids=[f"e{ch}{ch}{i}" for i in range(m)])))
     items += [("H", w) for w in F.wide()]  # more than ten nodes and edges
+    # labels that begin or end with a character of a multi-character delimiter without containing the delimiter
+    # (a label that *ends* with the delimiter's first character is left out: "y-" + "--" is ambiguous in any such format)
+    items += [("H", F.H([[-1, 2], [2, -3], [-1]])), ("H", F.H([["ba", "b"], ["a", "ba"]], ids=["ea", "be"])),
+              ("H", F.H([["-x", "y"], ["y", "-z"]]))]
     # single-row / single-column matrices explicitly
     items += [("H", F.H([[1]])), ("H", F.H([[1], [1]])), ("H", F.H([[1, 2, 3]])), ("H", F.H([[1], [1], [1]])),
               ("H", F.H([[1, 2]], nodes=[1, 2, 3]))]
